@@ -211,7 +211,7 @@ def gen_random(rng, engine, name, nops, aim_pre):
             if S.gens[g] is None:
                 ops.append([20, g, rng.randrange(0, 5), rng.choice([0, 1])]); S.gens[g] = 1
             elif rng.random() < 0.8:
-                ops.append([21, g, rng.choice([0, 1, 2] if coro else [0, 1]), rng.randrange(0, 9)])
+                ops.append([21, g, rng.choice([0, 1, 2, 3, 4, 5] if coro else [0, 1, 3, 4]), rng.randrange(0, 9)])
             else:
                 ops.append([22, g]); S.gens[g] = None
             continue
@@ -227,7 +227,7 @@ def gen_random(rng, engine, name, nops, aim_pre):
         else:
             ops.append([rng.choice([31, 99])])    # rejected in normal mode / unknown opcode
     if rng.random() < 0.1:
-        ops.insert(rng.randrange(len(ops) + 1), rng.choice([[6, 9, 0, 0, 0, 1], [3, 0], [14, 0, 5, 0], [4, 0, 7], [1, 0, 4], [21, 3, 7, 0], [6, 0, 0, 13, 0, 1], [8, 9], [20, 0, 1]]))
+        ops.insert(rng.randrange(len(ops) + 1), rng.choice([[6, 9, 0, 0, 0, 1], [3, 0], [14, 0, 5, 0], [4, 0, 7], [1, 0, 4], [21, 3, 7, 0], [21, 0, 6, 1], [6, 0, 0, 13, 0, 1], [8, 9], [20, 0, 1]]))
     return Case(engine, name, ops)
 
 
@@ -345,6 +345,10 @@ def gen(seed, tier):
         # generator with and without an argument, promise moves
         add(Case(eng, "", [[20, 0, 3, 1], [21, 0, 0, 5], [21, 0, 1, 6]] + ([[21, 0, 2, 7]] if coro else [[21, 0, 0, 7]]) + [[21, 0, 0, 8], [21, 0, 0, 9], [22, 0],
                            [20, 1, 2, 0], [21, 1, 0, 4], [21, 1, 1, 4], [21, 1, 1, 4], [22, 1]]))
+        # generator with an argument stepped through every access style with a variable and with a temporary
+        for style in ([0, 1, 2, 3, 4, 5] if coro else [0, 1, 3, 4]):
+            add(Case(eng, "", [[20, 2, 4, 1]] + [[21, 2, style, 3 + i] for i in range(6)] + [[22, 2]]))
+        add(Case(eng, "", [[20, 3, 6, 1]] + [[21, 3, st_, 2 * i] for i, st_ in enumerate([3, 0, 4, 1] + ([5, 2] if coro else [3, 4]))] + [[21, 3, 3, 1], [21, 3, 3, 1], [22, 3], [20, 3, 2, 0], [21, 3, 3, 0], [21, 3, 4, 0], [22, 3]]))
         add(Case(eng, "", [[1, 0, 3], [2, 0], [8, 0], [3, 0, 5, 0], [8, 0], [6, 0, 0, 0, 0, 9], [8, 0], [7, 0], [1, 1, 2], [2, 1], [4, 1, 0], [5, 1, 0], [6, 1, 0, 0, 0, 11], [7, 1]]))
         # contended mutex with 1..6 waiters
         for nw in range(0, 7):
